@@ -212,6 +212,94 @@ def matrix_case():
     return s, [pop('a'), pop('b'), pop('c')]
 
 
+def redecl_case():
+    """Fixed schema with attributes the written form does not show: an inherited entity-valued attribute re-declared in a subtype
+    (to a subtype of its entity, to a select member) - the value lives in the re-declaring attribute object and is written as `*`."""
+    from .. import model as M
+    ents = [M.Entity('pt', attrs=[M.Attr('n', M.STR())]),
+            M.Entity('spt', supers=['pt'], attrs=[M.Attr('w', M.REAL())]),
+            M.Entity('link', attrs=[M.Attr('nm', M.STR()), M.Attr('tail', M.ENT('pt')), M.Attr('tails', M.AGG('LIST', M.ENT('pt'), 0, None))]),
+            M.Entity('slink', supers=['link'], attrs=[M.Attr('SELF\\link.tail', M.ENT('spt'))]),
+            M.Entity('sslink', supers=['slink'], attrs=[M.Attr('extra', M.ENT('pt'), True)]),
+            M.Entity('llink', supers=['link'], attrs=[M.Attr('SELF\\link.tails', M.AGG('LIST', M.ENT('spt'), 1, None))])]
+    s = M.Schema('c14_redecl', [], ents)
+
+    def text(tag):
+        body = ["#1=SPT('%s1',1.);" % tag, "#2=SPT('%s2',2.);" % tag, "#3=PT('%s3');" % tag,
+                "#4=LINK('%sl',#3,(#1,#3));" % tag, "#5=SLINK('%ss',#2,(#3));" % tag, "#6=SSLINK('%sx',#1,(),#3);" % tag,
+                "#7=LLINK('%sy',#3,(#2,#1));" % tag]
+        empty = gen_p21.render(gen_p21.Population(s, []), 'compact')
+        head, tail = empty.split('DATA;\n')
+        return head + 'DATA;\n' + '\n'.join(body) + '\n' + tail
+    return s, [text('a'), text('b'), text('c')]
+
+
+_AT = re.compile(r'^@@A (\d+) (\d+) (\S+) ?(.*)$')
+
+
+def attr_objects(txt):
+    """dumpattrs output -> [(instance id, [(index, attribute name, value text)])] in manager order"""
+    out, cur = [], None
+    for l in (txt or '').splitlines():
+        m = _AT.match(l)
+        if not m:
+            continue
+        iid = int(m.group(1))
+        if cur is None or cur[0] != iid:
+            cur = (iid, [])
+            out.append(cur)
+        cur[1].append((int(m.group(2)), m.group(3), m.group(4)))
+    return out
+
+
+def judge_attr_objects(chk, lib, texts, label):
+    """Differential oracle on attribute OBJECTS (not the written form): the attribute values of file B read alone, with every
+    reference shifted by the offset, must equal the values B's instances have after `read A; append B [; append C]`."""
+    found = []
+    files = {'schema.exp': lib.schema.text()}
+    for n, t in enumerate(texts):
+        files['file%d.p21' % n] = t
+    with p21fam.Scratch('c14a') as sc:
+        paths = [sc.write('f%d.p21' % n, t) for n, t in enumerate(texts)]
+        alone = []
+        for n, pth in enumerate(paths):
+            r = p21fam.mon(lib, ['read', pth, 'dumpattrs', sc.path('a%d.txt' % n)], sc.d)
+            chk.ev()
+            if r.crashed() or r.timed_out:
+                return [('crash|%s|attribute objects of a file read alone|%s' % (label, r.symptom()), run.san_frames(r.err).__str__(), dict(files, stderr=r.err[-3000:]))]
+            alone.append(attr_objects(sc.read('a%d.txt' % n)))
+        ops = ['read', paths[0]]
+        for pth in paths[1:]:
+            ops += ['append', pth]
+        r = p21fam.mon(lib, ops + ['dumpattrs', sc.path('all.txt')], sc.d)
+        chk.ev()
+        if r.crashed() or r.timed_out:
+            return [('crash|%s|attribute objects after append|%s' % (label, r.symptom()), run.san_frames(r.err).__str__(), dict(files, stderr=r.err[-3000:]))]
+        allo = attr_objects(sc.read('all.txt'))
+        files['attrs_after_append.txt'] = sc.read('all.txt') or ''
+    pos = 0
+    for fi, objs in enumerate(alone):
+        seg = allo[pos:pos + len(objs)]
+        pos += len(objs)
+        if len(seg) != len(objs) or not objs:
+            found.append(('count|%s|instances after append differ from the files' % label, 'file %d: %d alone, %d after append' % (fi, len(objs), len(seg)), files))
+            return found
+        ds = set(g[0] - w[0] for g, w in zip(seg, objs))
+        if len(ds) != 1:
+            found.append(('offset|%s|appended instances are not shifted by one common offset' % label, 'offsets %s' % sorted(ds)[:6], files))
+            return found
+        d = ds.pop()
+        for (gid, gat), (wid, wat) in zip(seg, objs):
+            for (gi, gn, gv), (wi, wn, wv) in zip(gat, wat):
+                want = re.sub(r'#(\d+)', lambda m: '#%d' % (int(m.group(1)) + d), wv)
+                chk.seen('attribute object', label, gn, 'ref' if '#' in wv else 'plain', fi > 0)
+                if gv != want:
+                    kind = 're-declaring attribute' if '.' in gn or gn != wn else 'attribute'
+                    found.append(('appended file|%s object %s of %s|%s' % (kind, gn, label, 'reference not shifted by the file offset' if '#' in wv else 'value differs'),
+                                  'file %d #%d attribute %d (%s): after append %r, alone %r, offset %d' % (fi, wid, gi, gn, gv, wv, d), files))
+    return found
+
+
 def main(chk):
     quick = chk.tier == 'quick'
     n_schemas, n_pairs = (10, 16) if quick else (200, 48)
@@ -249,6 +337,19 @@ def main(chk):
             cases.append((mlib, [reorder(mpops[0], how, random.Random(3)), reorder(mpops[1], how, random.Random(4)), mpops[2]], ['matrix/' + how, 'matrix/' + how, 'matrix']))
     else:
         chk.inconc('matrix schema could not be built: %s' % str(mlib.fail)[:300])
+
+    # attribute objects the written form hides (re-declared attributes), and the matrix once more at attribute-object level
+    rs, rtexts = redecl_case()
+    rlib = p21fam.build_libs([rs])[0]
+    extra = []
+    if rlib.fail is None:
+        extra.append((rlib, rtexts[:2], 're-declaration schema, two files'))
+        extra.append((rlib, rtexts, 're-declaration schema, three files'))
+    else:
+        chk.inconc('re-declaration schema could not be built: %s' % str(rlib.fail)[:300])
+    for elib, etexts, elabel in extra:
+        for key, what, files in judge_attr_objects(chk, elib, etexts, elabel):
+            chk.violation(key, what, files, dict(schema=elib.schema.name))
 
     def work(c):
         return c, judge(chk, *c)
